@@ -304,8 +304,10 @@ class ReaderAnalysis:
                         else:
                             self.stores.append((fi, n, t.attr, n.value))
                     elif isinstance(t, ast.Subscript) and isinstance(t.value, ast.Name):
-                        self.stores.append((fi, n, '%s[0]' % t.value.id, t.slice))
-                        self.stores.append((fi, n, '%s[1]' % t.value.id, n.value))
+                        returned = any(isinstance(r, ast.Return) and isinstance(r.value, ast.Name) and r.value.id == t.value.id for r in walk_shallow(fi.node))
+                        base = '@ret:' + fi.qual if returned else t.value.id
+                        self.stores.append((fi, n, '%s[0]' % base, t.slice))
+                        self.stores.append((fi, n, '%s[1]' % base, n.value))
             if isinstance(n, ast.Call):
                 q = self.repo.resolve_dotted(fi.module, dotted(n.func) or '')
                 if q in self.repo.classes:
@@ -377,4 +379,20 @@ class ReaderAnalysis:
                         arg_tags |= self.tags_of(fi, a)
                     for r in ret_reads[q]:
                         r.fields.add((field, frozenset(arg_tags)))
+        # a dict that is filled and returned: name it after the field its caller stores the result in
+        ret_field = {}
+        for fi, stmt, field, value in self.stores:
+            if isinstance(value, ast.Call):
+                q = self.repo.resolve_dotted(fi.module, dotted(value.func) or '')
+                if q:
+                    ret_field[q] = field
+        for r in self.reads:
+            new = set()
+            for f in r.fields:
+                if isinstance(f, str) and f.startswith('@ret:'):
+                    q, idx = f[5:].rsplit('[', 1)
+                    new.add('%s[%s' % (ret_field.get(q, q), idx))
+                else:
+                    new.add(f)
+            r.fields = new
         return self.reads
